@@ -45,13 +45,15 @@ def _variants(s, j):
     return [s, s.lower(), s.upper(), s.swapcase()][j % 4]
 
 
-def make_events(f, idx, ns, quick, seed, budget):
+def make_events(f, idx, ns, quick, seed, budget, only=None):
     """(text, ns, okns, raw terms) for every tag x suffix spelling x case x remainder (sampled in quick)."""
     evs = []
     ext_ok = lambda t: "extensionAllowed" in t["inh"]
     names = [t["name"] for t in f.real_tags()]
     n = 0
     for t in f.real_tags():
+        if only and not only(t):
+            continue
         forms = f.suffix_forms(t)
         for fi, form in enumerate(forms):
             rems = [""]
@@ -89,6 +91,13 @@ def observe(args):
     if key not in _G:
         _G[key] = load_schema_version(key)
     schema = _G[key]
+    return observe_with(schema, evs)
+
+
+def observe_with(schema, evs):
+    from hed import HedTag
+    from hed.models import df_util
+    import pandas as pd
     out = []
     texts = [e["text"] for e in evs]
     dfl = pd.DataFrame({"c": list(texts)})
@@ -143,6 +152,69 @@ def validate_schema(args):
             "sample": [{"text": evs[k]["text"], "obs": obs[k]} for k in (0, len(evs) // 2)]}
 
 
+GEN_PARTNER = "8.3.0"
+
+
+def generated_text(shapes):
+    """One library schema (MediaWiki, partnered with a bundled standard schema) holding one tree per shape TLC emitted;
+    tv[k] gives node k a '#' child - also when it has named children (the loaders accept that)."""
+    lines = ['HED version="1.0.0" library="genlib" withStandard="%s" unmerged="True"' % GEN_PARTNER, "", "'''Prologue'''",
+             "Generated for the lookup check.", "", "!# start schema", ""]
+    for i, sh in enumerate(shapes):
+        par, tv = sh["par"], sh["tv"]
+        nm = lambda k: "Gq%dx%d" % (i, k) if (i + k) % 3 else "Gq%dx%d-more" % (i, k)      # some names extend another name's text
+
+        def emit(k, depth):
+            star = "*" * depth
+            lines.append(("'''%s'''" % nm(k)) if depth == 0 else "%s %s" % (star, nm(k)))
+            if tv[k - 1]:
+                lines.append("%s* # <nowiki>{takesValue}</nowiki>" % star)
+            for c in range(1, len(par) + 1):
+                if par[c - 1] == k:
+                    emit(c, depth + 1)
+        for k in range(1, len(par) + 1):
+            if par[k - 1] == 0:
+                emit(k, 0)
+                lines.append("")
+    lines += ["!# end schema", "", "'''Unit classes'''", "", "'''Unit modifiers'''", "", "'''Value classes'''", "",
+              "'''Schema attributes'''", "", "'''Properties'''", "'''Epilogue'''", "", "!# end hed", ""]
+    return "\n".join(lines)
+
+
+def validate_generated(args):
+    """Lookups in a GENERATED schema: built from TLC's shapes, loaded with from_string, its tree read back from the saved
+    XML by vf/facts.py, every spelling of every generated node judged by TLC like those of the bundled schemas."""
+    shapes, quick, seed, work = args
+    from hed.schema import from_string
+    text = generated_text(shapes)
+    try:
+        schema = from_string(text, schema_format=".mediawiki", name="c03-generated")
+        xml = os.path.join(work, "generated_schema.xml")
+        schema.save_as_xml(xml, save_merged=True)
+    except Exception as ex:  # noqa
+        return {"version": "generated", "ns": "", "n": 0, "checked": 0, "table_bad": False, "rej": [], "nrej": 0, "states": 0,
+                "transitions": 0, "wall": 0, "raised": [], "dup": [], "nodes": 0, "forms": 0, "sample": [None, None],
+                "vehicle": "%s: %s" % (type(ex).__name__, str(ex)[:200])}
+    f = facts.Facts(xml)
+    tree, idx, dup = tree_of(f)
+    evs = make_events(f, idx, "", False, seed, 1, only=lambda t: t["name"].startswith("Gq"))
+    obs = observe_with(schema, evs)
+    events = [{"ns": e["ns"], "okns": e["okns"], "raw": e["raw"], "folded": [x.casefold() for x in e["raw"]], "obs": o}
+              for e, o in zip(evs, obs)]
+    path = os.path.join(work, "tree_generated.json")
+    with open(path, "w") as fh:
+        json.dump(dict(tree, events=events), fh)
+    r = tlc.run("Trace_SchemaTree", "Trace_SchemaTree.cfg", workers=1, env={"TRACE_FILE": path}, timeout=3000, workdir=work, heap="3g")
+    rej = [(int(m.group(1)), m.group(2)) for m in re.finditer(r'<<"REJECT", (\d+), "([\w-]+)">>', r.stdout)]
+    checked = re.search(r'<<"CHECKED", (\d+)>>', r.stdout)
+    return {"version": "generated", "ns": "", "n": len(events), "checked": int(checked.group(1)) if checked else -1,
+            "table_bad": "TABLE-BAD" in r.stdout, "rej": [(i, why, evs[i - 1], obs[i - 1]) for i, why in rej[:50]],
+            "nrej": len(rej), "states": r.distinct, "transitions": r.generated, "wall": r.wall,
+            "raised": [(e["text"], o["raised"]) for e, o in zip(evs, obs) if "raised" in o][:5],
+            "dup": sorted(dup)[:5], "nodes": len(tree["par"]), "forms": len(tree["table"]), "text": text,
+            "sample": [{"text": evs[k]["text"], "obs": obs[k]} for k in (0, len(evs) // 2)]}
+
+
 def run(ctx):
     quick = ctx.quick
     ctx.rule = ("cases = lookups: every tag of a bundled schema x every suffix-path spelling x 4 letter-case variants x "
@@ -159,8 +231,23 @@ def run(ctx):
     else:
         plan = [(v, "", 1) for v in versions] + [("8.3.0", "tl:", 1), ("score_1.1.0", "sc:", 1), ("testlib_2.0.0", "ab:", 1)]
     jobs = [(v, ns, quick, ctx.seed, b, ctx.work) for v, ns, b in plan]
-    with mp.get_context("fork").Pool(min(14, len(jobs))) as pool:
+    # generated schemas: one tree per shape of the model (value-taking nodes with named children included)
+    gcfg = "MC_SchemaTree_gen.cfg" if quick else ctx.cfg("MC_SchemaTree_gen.cfg", ("MaxN = 3", "MaxN = 4"), ("Names3", "NamesDef"), ("Words3", "WordsDef"))
+    rg = ctx.tlc("MC_SchemaTree", gcfg, workers=1, label="shapes of generated schemas (every labelled tree, value-taking nodes anywhere)", timeout=1800)
+    shapes, seen = [], set()
+    for j in rg.json_lines:
+        k = (tuple(j["par"]), tuple(j["tv"]))
+        if k not in seen:
+            seen.add(k)
+            shapes.append({"par": j["par"], "tv": j["tv"]})
+    ctx.note("generated_schema_shapes", len(shapes))
+    with mp.get_context("fork").Pool(min(14, len(jobs) + 1)) as pool:
+        rgen = pool.apply_async(validate_generated, ((shapes, quick, ctx.seed, ctx.work),))
         results = pool.map(validate_schema, jobs, chunksize=1)
+        gres = rgen.get()
+    if gres.get("vehicle"):
+        raise tlc.TLCFailure("the generated schema does not load: %s" % gres["vehicle"])
+    results.append(gres)
     for res in results:
         ctx.states += res["states"]
         ctx.transitions += res["transitions"]
@@ -179,7 +266,7 @@ def run(ctx):
         for i, why, e, o in res["rej"]:
             ctx.violation("%s" % why, "schema %s%s, tag text %r: %s disagrees with the specification; code answered %s"
                           % (res["ns"], res["version"], e["text"], why, {k: o[k] for k in o if o[k] != ""}),
-                          {"version": res["version"], "ns": res["ns"], "text": e["text"]})
+                          {"version": res["version"], "ns": res["ns"], "text": e["text"], "schema_text": res.get("text")})
         ctx.sample({"schema": res["ns"] + res["version"], "nodes": res["nodes"], "forms": res["forms"], "lookups": res["n"],
                     "example": res["sample"][1]})
     ctx.note("schemas", ["%s%s" % (r["ns"], r["version"]) for r in results])
@@ -191,7 +278,11 @@ def run(ctx):
 
 def replay(obj):
     from hed import load_schema_version, HedTag
-    s = load_schema_version(obj["ns"] + obj["version"])
+    if obj["version"] == "generated":
+        from hed.schema import from_string
+        s = from_string(obj["schema_text"], schema_format=".mediawiki", name="c03-generated")
+    else:
+        s = load_schema_version(obj["ns"] + obj["version"])
     try:
         h = HedTag(obj["text"], s)
         return True, "HedTag(%r): exists=%s short=%s long=%s ext=%r (compare with the specification by rerunning the check)" % (
